@@ -241,8 +241,10 @@ package boltz
 //@   pure
 //@   ensures result == bktHas[bucket.Bucket][str(key)]
 //@ func (*TypedBucket).GetInt32
+//@   trusted decoding is specified under C13
 //@   pure
 //@ func (*TypedBucket).SetInt32
+//@   trusted encoding is specified under C13; here only: writes the bucket and its error holder, never clears an error
 //@   modifies bucket.Err, bktHas[bucket.Bucket], bktVal[bucket.Bucket]
 //@   ensures result == bucket
 //@   ensures old(bucket.Err) != nil ==> bucket.Err == old(bucket.Err)
